@@ -32,13 +32,19 @@ Members(h) == IF h = "a" THEN {"a", "m"} ELSE IF h = "f" THEN {"f", "o"}
 (* "u" is an element in NO namespace (##local); the namespace constraints are          *)
 (* any, other (not the target namespace and not absent), tns, local, and the lists     *)
 (* tl = (##targetNamespace ##local), oo = (urn:O), ol = (urn:O ##local)                *)
+(* "z" is an element of a THIRD namespace (urn:Z) that no constraint names: ##other and every   *)
+(* notNamespace admit it.  XSD 1.1 negations: nO = notNamespace(urn:O), nT =                    *)
+(* notNamespace(##targetNamespace), nOl = notNamespace(urn:O ##local).                         *)
 WildDen(c) == CASE c = "any"   -> Syms
-                [] c = "other" -> Syms \cap {"o"}
-                [] c = "tns"   -> Syms \ {"o", "u"}
+                [] c = "other" -> Syms \cap {"o", "z"}
+                [] c = "tns"   -> Syms \ {"o", "u", "z"}
                 [] c = "local" -> Syms \cap {"u"}
-                [] c = "tl"    -> Syms \ {"o"}
+                [] c = "tl"    -> Syms \ {"o", "z"}
                 [] c = "oo"    -> Syms \cap {"o"}
                 [] c = "ol"    -> Syms \cap {"o", "u"}
+                [] c = "nO"    -> Syms \ {"o"}
+                [] c = "nT"    -> Syms \cap {"o", "u", "z"}
+                [] c = "nOl"   -> Syms \ {"o", "u"}
 (* "x": a leaf given by the explicit sequence of names it matches (used when real  *)
 (* schemas are projected into this vocabulary: substitution groups, wildcards)    *)
 Matches(kind, x, a) == CASE kind = "e" -> a = x
@@ -311,6 +317,12 @@ TypedSet(z) == GroupsOver({<<"e", n, o[1], o[2], t>> : n \in {"a", "b"}, o \in {
                                                        t \in {"s", "i"}},
                           {"s", "c"}, {<<1, 1>>, <<1, Inf>>})
 
+(* XSD 1.1: two wildcards (namespace lists and negations) and an element side by side: two wildcards   *)
+(* compete exactly when their denotations meet - possibly only in a namespace neither of them names (z) *)
+WildPairSet(z) == LET ws == {<<"w", c, o[1], o[2]>> : c \in {"oo", "ol", "tl", "other", "nO", "nT", "nOl"},
+                                                      o \in {<<1, 1>>, <<0, 1>>}}
+                  IN GroupsOver(ws \cup {<<"e", "a", 1, 1>>}, {"s", "c"}, {<<1, 1>>})
+
 (* families are operators with a dummy argument so that TLC does not evaluate *)
 (* every one of them eagerly at start-up                                      *)
 Family(name) == CASE name = "Depth1"  -> Depth1Set(0)
@@ -325,6 +337,7 @@ Family(name) == CASE name = "Depth1"  -> Depth1Set(0)
                   [] name = "All11Q"  -> All11QSet(0)
                   [] name = "NestW"   -> NestWSet(0)
                   [] name = "MultiHead" -> MultiHeadSet(0)
+                  [] name = "WildPair" -> WildPairSet(0)
                   [] name = "Zero"    -> ZeroSet(0)
                   [] name = "Typed"   -> TypedSet(0)
                   [] name = "OCQ"     ->      \* bases of the open-content scope
